@@ -13,15 +13,30 @@
 //!   message of the report (top-level messages in report order, inner messages in pre-order: the order print_all
 //!   prints them), using the guarded hook `Report::verif_messages`.
 //!   answer: `R <TAB> ok|err <TAB> ok|panic (print_all of the whole report) <TAB> msg;msg;...`
-//!     msg = depth,kind(E|W|N),span(-|D|S),file-name-hex (or `!` when the handle names no file),start,end,line,col
+//!     msg = depth,kind(E|W|N),span(-|D|S),file-name-hex (or `!` when the handle names no file),start,end,line,col[,short_excerpt]
 //!     span: `-` none, `D` dummy location (file only), `S` located.
 //!     line,col: what report.rs prints for that message ("--> file:line:col:"), obtained through its own code path:
 //!     the message alone (inner messages dropped) is put in a fresh Report and printed with print_all into a
 //!     Vec<u8>; the header line after the description is parsed from the right.  `P,P` when that printing
 //!     panics, `?,?` when no header could be parsed, `-,-` when there is no location.
 //!   `PANIC` when assembling itself panics.
+//!   When the hook is absent from the tree under test (so that this file, and with it the whole harness crate,
+//!   still builds) the message list reads `NOHOOK`; assembling and print_all panics are still reported.
 use customasm::*;
 use vh::*;
+
+/// Fallback used only when `Report` has no inherent `verif_messages` (inherent methods win method resolution).
+static HOOK_MISSING: std::sync::atomic::AtomicBool = std::sync::atomic::AtomicBool::new(false);
+#[allow(dead_code)]
+trait VerifMessagesFallback {
+    fn verif_messages(&self) -> &[diagn::Message];
+}
+impl VerifMessagesFallback for diagn::Report {
+    fn verif_messages(&self) -> &[diagn::Message] {
+        HOOK_MISSING.store(true, std::sync::atomic::Ordering::SeqCst);
+        &[]
+    }
+}
 
 fn charcounter(text: &str) -> String {
     let counter = util::CharCounter::new(text);
@@ -113,7 +128,7 @@ fn walk(fs: &util::FileServerMock, msg: &diagn::Message, depth: usize, out: &mut
                 None => format!("{},{},D,{},0,0,-,-", depth, kind, name),
                 Some((s, e)) => {
                     let (l, c) = printed_linecol(fs, msg);
-                    format!("{},{},S,{},{},{},{},{}", depth, kind, name, s, e, l, c)
+                    format!("{},{},S,{},{},{},{},{},{}", depth, kind, name, s, e, l, c, if msg.short_excerpt { 1 } else { 0 })
                 }
             }
         }
@@ -148,8 +163,9 @@ fn program(entry: &str, files: &str) -> String {
         for m in report.verif_messages() {
             walk(&fs, m, 0, &mut items);
         }
+        let list = if HOOK_MISSING.load(std::sync::atomic::Ordering::SeqCst) { "NOHOOK".to_string() } else { items.join(";") };
         format!("R\t{}\t{}\t{}", if ok { "ok" } else { "err" },
-            if printed.is_some() { "ok" } else { "panic" }, items.join(";"))
+            if printed.is_some() { "ok" } else { "panic" }, list)
     });
     r.unwrap_or("PANIC".to_string())
 }
